@@ -628,6 +628,13 @@ where
 
         let (topic_name, consumed) = MqttString::decode(&data_arc[cursor..])?;
         cursor += consumed;
+        // Same rules as the builder: a topic name is not empty and has no wildcards
+        if topic_name.as_str().is_empty()
+            || topic_name.as_str().contains('#')
+            || topic_name.as_str().contains('+')
+        {
+            return Err(MqttError::MalformedPacket);
+        }
 
         let qos = match qos_value {
             0 => Qos::AtMostOnce,
